@@ -226,6 +226,10 @@ type c17Run struct {
 	ctx   context.Context
 	fails map[string]c17Failure // shortest failing input per signature
 	order []string
+	// established by the persist stream on the real CheckpointNow: a value returned by _updateCheckpointLists
+	// that is Before the last persisted checkpoint is written to the stores all the same
+	persistsLower     bool
+	returnedNotStored int
 }
 
 func (r *c17Run) fail(monitor, sig string, thr int, ops []c17Op, detail string) {
@@ -242,8 +246,16 @@ func (r *c17Run) fail(monitor, sig string, thr int, ops []c17Op, detail string) 
 const c17KnownSig = "checkpoint-regress-late-expected"
 
 func (r *c17Run) flush() {
-	// signatures other than the known regress first
-	sort.SliceStable(r.order, func(i, j int) bool { return r.order[i] != c17KnownSig && r.order[j] == c17KnownSig })
+	// property-level conclusions first, state-level exactness next, the known regress last
+	prio := map[string]int{"checkpoint-ahead-of-unprocessed": 0, "checkpoint-not-handled-expected": 1, "checkpoint-regress-ordered-feed": 2,
+		"restart-skips-unhandled": 3, "checkpointer-panic": 4, c17KnownSig: 99}
+	rank := func(s string) int {
+		if v, ok := prio[s]; ok {
+			return v
+		}
+		return 50
+	}
+	sort.SliceStable(r.order, func(i, j int) bool { return rank(r.order[i]) < rank(r.order[j]) })
 	for _, sig := range r.order {
 		f := r.fails[sig]
 		r.rec.Fail(f.monitor, f.sig, map[string]any{"threshold": f.thr, "ops": f.ops}, f.detail)
@@ -393,6 +405,11 @@ func (r *c17Run) monitorTick(c *Checkpointer, g *c17Ghost, ret *SequenceID, preE
 				r.fail("tick_exact", "tick-keeps-below-checkpoint", thr, path, "kept expected "+c17TokDesc(x)+" below returned "+c17TokDesc(s))
 			}
 		}
+		for _, x := range preE {
+			if _, still := c.processedSeqs[x]; still && c17LeTok(x, s) {
+				r.fail("tick_exact", "tick-leaks-processed", thr, path, "processed mark of "+c17TokDesc(x)+" survives the tick that returned "+c17TokDesc(s))
+			}
+		}
 	} else {
 		for _, y := range preE {
 			if good(y) {
@@ -429,8 +446,12 @@ func (r *c17Run) monitorTick(c *Checkpointer, g *c17Ghost, ret *SequenceID, preE
 				late = true
 			}
 		}
-		detail := "persisted checkpoint moves backwards: " + c17TokDesc(*g.last) + " then " + c17TokDesc(s)
-		if late {
+		detail := "checkpoint handed to _setCheckpoints moves backwards: " + c17TokDesc(*g.last) + " then " + c17TokDesc(s)
+		if late && !r.persistsLower {
+			// CheckpointNow was seen NOT to store a lower value (a guard exists): the lower return value is not a
+			// persisted regress; counted, not reported
+			r.returnedNotStored++
+		} else if late {
 			r.fail("checkpoint_monotone", c17KnownSig, thr, path, detail+" ("+c17TokDesc(s)+" was announced after "+c17TokDesc(*g.last)+" had been returned: feed not ordered)")
 		} else {
 			r.fail("checkpoint_monotone", "checkpoint-regress-ordered-feed", thr, path, detail+" (nothing below the earlier checkpoint was announced since)")
@@ -561,6 +582,11 @@ func TestVerifC17(t *testing.T) {
 		{P(S(7)), E(S(7)), T, {K: 'Q', D: []int{9}}, E(S(0)), T},
 		{{K: 'D', S: []SequenceID{S(4), S(5)}, D: []int{1, 2}}, {K: 'Q', D: []int{2}}, {K: 'Q', S: []SequenceID{S(4)}, D: []int{1}}, T},
 	}
+	// ---- persist (first: it also establishes whether CheckpointNow stores a lower value) ----
+	// CheckpointNow against a real local checkpoint document and an in-process BLIP peer
+	c17Persist(t, r, vNewRand(vSeed()^0x17), [][]c17Op{regress, corpus[3], corpus[4]})
+	rec.Extra("checkpointnow_stores_lower_value", r.persistsLower)
+
 	for _, ops := range corpus {
 		for _, thr := range []int{0, 2, 100} {
 			r.emitRun("corpus", thr, ops)
@@ -583,7 +609,7 @@ func TestVerifC17(t *testing.T) {
 	// per threshold, the depth walked below each 2-operation prefix; every node is both checked by the Go
 	// monitors and folded into the digest that the Coq model re-computes
 	type thrDepth struct{ thr, depth int }
-	plan := []thrDepth{{1, 3}, {2, 3}, {100, 3}}
+	plan := []thrDepth{{1, 3}, {2, 2}, {100, 3}}
 	if vThorough() {
 		plan = []thrDepth{{0, 3}, {1, 4}, {2, 3}, {100, 4}}
 	}
@@ -622,7 +648,7 @@ func TestVerifC17(t *testing.T) {
 	rec.Extra("exhaustive_scope", fmt.Sprintf("every operation sequence over %d operations (expect/known/processed of tokens 1,2,3,2:1,1::3, and tick), %s; %d nodes, each checked by the Go monitors and re-computed by the Coq model (digests)", len(alpha), strings.Join(scope, "; "), totalNodes))
 
 	// ---- short: every sequence of length <= 2 as an explicit, readable case ----
-	for _, thr := range []int{0, 100} {
+	for _, thr := range []int{0} { // threshold 0 is not in the quick exhaustive plan
 		for _, o1 := range alpha {
 			r.emitRun("short", thr, []c17Op{o1, T})
 			for _, o2 := range alpha {
@@ -792,9 +818,8 @@ func TestVerifC17(t *testing.T) {
 		r.emitRun("adversarial", pickThr(), append(ops, T))
 	}
 
-	// ---- persist: CheckpointNow against a real local checkpoint document and an in-process BLIP peer ----
-	c17Persist(t, r, rnd, [][]c17Op{regress, corpus[3], corpus[4]})
 	rec.Extra("monitor_signatures_seen", r.order)
+	rec.Extra("lower_return_values_not_stored", r.returnedNotStored)
 }
 
 // c17Persist drives CheckpointNow (the real persistence path: _updateCheckpointLists, _setCheckpoints,
@@ -843,15 +868,19 @@ func c17Persist(t *testing.T, r *c17Run, rnd *vRand, fixed [][]c17Op) {
 	}
 	defer sender.Close()
 
+	lastRev := ""
 	stored := func(docID string) *string {
 		raw, err := getSpecialBytes(ctx, ds, DocTypeLocal, docID, 0)
 		if err != nil {
+			lastRev = ""
 			return nil
 		}
 		var cp replicationCheckpoint
 		if json.Unmarshal(raw, &cp) != nil {
+			lastRev = ""
 			return nil
 		}
+		lastRev = cp.Rev
 		return &cp.LastSeq
 	}
 	optStr := func(s *string) string {
@@ -900,6 +929,8 @@ func c17Persist(t *testing.T, r *c17Run, rnd *vRand, fixed [][]c17Op) {
 		var prev *SequenceID
 		prevAt := -1
 		nontrivial := false
+		panicked := false
+		localRev := ""
 		for i, o := range ops {
 			path := ops[:i+1]
 			switch o.K {
@@ -926,10 +957,24 @@ func c17Persist(t *testing.T, r *c17Run, rnd *vRand, fixed [][]c17Op) {
 					g.P[s] = true
 				}
 			case 'T':
-				c.CheckpointNow()
+				func() {
+					defer func() {
+						if p := recover(); p != nil {
+							panicked = true
+							r.fail("no_panic", "checkpointer-panic", thr, path, fmt.Sprint(p))
+						}
+					}()
+					c.CheckpointNow()
+				}()
+			}
+			if panicked {
+				break
 			}
 			g.n++
-			l, m := stored(CheckpointDocIDPrefix+client), stored(CheckpointDocIDPrefix+"peer-"+client)
+			m := stored(CheckpointDocIDPrefix + "peer-" + client)
+			l := stored(CheckpointDocIDPrefix + client)
+			written := lastRev != localRev // this call wrote the local checkpoint document
+			localRev = lastRev
 			loc, rem = append(loc, optStr(l)), append(rem, optStr(m))
 			ld, rd = append(ld, descStr(l)), append(rd, descStr(m))
 			if o.K != 'T' {
@@ -950,6 +995,9 @@ func c17Persist(t *testing.T, r *c17Run, rnd *vRand, fixed [][]c17Op) {
 			if c.lastCheckpointSeq.String() != *l {
 				r.fail("persisted_is_last_checkpoint", "persisted-differs-from-lastCheckpointSeq", thr, path, "stored "+*l+" lastCheckpointSeq "+c.lastCheckpointSeq.String())
 			}
+			if !written {
+				continue
+			}
 			for _, e := range g.E {
 				if c17LeTok(e, cur) && !g.P[e] {
 					r.fail("checkpoint_safe", "checkpoint-ahead-of-unprocessed", thr, path, "persisted "+*l+" while expected "+c17TokDesc(e)+" is neither processed nor known")
@@ -966,6 +1014,7 @@ func c17Persist(t *testing.T, r *c17Run, rnd *vRand, fixed [][]c17Op) {
 					}
 				}
 				detail := "PERSISTED checkpoint (local document and remote peer) moves backwards: " + prev.String() + " then " + *l
+				r.persistsLower = true
 				if late {
 					r.fail("checkpoint_monotone", c17KnownSig, thr, path, detail+" (announced after the earlier checkpoint was persisted)")
 				} else {
@@ -977,6 +1026,9 @@ func c17Persist(t *testing.T, r *c17Run, rnd *vRand, fixed [][]c17Op) {
 				prev = &cc
 				prevAt = g.n - 1
 			}
+		}
+		if panicked {
+			continue
 		}
 		r.rec.Case("persist", "persist", "CPersist "+cqI(thr)+" "+c17OpsCoq(ops)+" "+cqList(loc)+" "+cqList(rem),
 			map[string]any{"threshold": thr, "ops": c17OpsDesc(ops), "local_last_sequence": ld, "remote_last_sequence": rd}, nontrivial)
